@@ -28,7 +28,7 @@ def stress_api(variant):
     F = ['r_resource', 's_two_services', 'm_lro', 'f_map', 'f_crossfile', 'f_enum', 'f_nested', 'o_grpc_rest', 'o_metadata', 's_flatten',
          'r_file_level', 'f_deppkg', 'f_wkt', 'm_paged_map']
     if variant % 2:
-        F += ['o_mixins', 's_routing', 'm_sstream']
+        F += ['o_mixins', 's_routing', 'm_sstream', 'm_raw_operation']
     api, opts = features.build(F)
     main = [f for f in api['files'] if f['name'].endswith('library.proto')][0]
     # equal short resource type names under different domains (equal sort keys), plus more resources
